@@ -456,6 +456,9 @@ C01_http(H) ==
 \* were being paced - no goroutine it started is still alive once it has returned, and every handle it opened was closed exactly once
 C10_req(H) ==
     /\ H.out.panic = ""
+    \* a failing handle operation fails the request: an error that wraps the cause, no result (never masked by a retry on fresh handles)
+    /\ (FiredFailing(H) # {} => (~H.out.ok /\ ~H.out.has_result
+                                  /\ \A i \in FiredFailing(H) : H.flt[i].class \in {"fatal", "typed"} => (HasCause(H.out, CauseName(H.flt[i])) \/ HasCause(H.out, H.flt[i].op))))
     /\ H.out.goroutines = 0
     /\ H.out.opened = H.out.closed_once /\ Len(H.out.bad_handles) = 0
 
